@@ -33,6 +33,11 @@ pub enum Op {
     /// arbiter-strategy database a stale versioned write is then put aside as a conflict (the key keeps its value
     /// and gets the "in conflict" version, a `$conflicts_...` record is written) -- state a snapshot must keep
     Arbiter { db: usize },
+    /// an incremental snapshot of the database is requested and the process is killed at its k-th mutating disk
+    /// call (before or after the call), then started again.  What a crash in the middle of a snapshot may leave
+    /// is C11's subject (either state, per key); here the history goes on from whatever was loaded, and the next
+    /// snapshot that completes must again be restored exactly
+    SnapCrash { db: usize, k: u32, after: bool },
 }
 
 #[derive(Clone, Debug, Serialize, Deserialize)]
@@ -84,7 +89,13 @@ pub fn gen_with(rng: &mut Rng, long: bool, clean_restarts: bool) -> Program {
                 }
             }
             12 => Op::Snapshot { db, reclaim: rng.chance(1, 2) },
-            13 if race_incremental => Op::SnapRace { db, reclaim: false },
+            13 if race_incremental => {
+                if rng.chance(1, 2) {
+                    Op::SnapRace { db, reclaim: false }
+                } else {
+                    Op::SnapCrash { db, k: rng.range(1, 14) as u32, after: rng.chance(1, 2) }
+                }
+            }
             _ => Op::Remove { db, key },
         };
         ops.push(op);
@@ -326,8 +337,37 @@ pub fn execute(prog: Program) -> Outcome {
                     }
                 }
             }
-            Op::Restart | Op::CleanRestart { .. } => {
-                if let Op::CleanRestart { db, reclaim } = op {
+            Op::Restart | Op::CleanRestart { .. } | Op::SnapCrash { .. } => {
+                if let Op::SnapCrash { db, k, after } = op {
+                    // (a database without a completed snapshot has no promise to keep after a crash inside its first one)
+                    if !exists[*db] || snap[*db].is_none() || racy[*db] {
+                        continue;
+                    }
+                    select!(*db);
+                    w.wait_declutter_idle(0, 20_000);
+                    if admin.exec("snapshot false").resp.is_err() {
+                        continue;
+                    }
+                    let idx = w.nodes[0].idx;
+                    nundb_verif_rt::kernel::with(|kk| {
+                        let n = &mut kk.nodes[idx as usize];
+                        n.crash_at = Some((n.disk_mutations + *k as u64, *after));
+                    });
+                    w.declutter_tick(0, 20_000);
+                    racy[*db] = true;
+                    if w.alive(0) {
+                        // the snapshot needed fewer disk calls: it completed (nothing was captured; the next completed
+                        // snapshot is what a restart is compared with)
+                        nundb_verif_rt::kernel::with(|kk| kk.nodes[idx as usize].crash_at = None);
+                        continue;
+                    }
+                    nundb_verif_rt::kernel::with(|kk| kk.fault("kill_inside_snapshot"));
+                    for ((d2, _k), h) in hist.iter_mut() {
+                        if d2 == db {
+                            h.push("CRASH-IN-SNAP");
+                        }
+                    }
+                } else if let Op::CleanRestart { db, reclaim } = op {
                     if exists[*db] {
                         select!(*db);
                         w.wait_declutter_idle(0, 20_000);
